@@ -778,6 +778,26 @@ where
                 }
             }
             slot.model.clear();
+            if end == 2 && !liar {
+                // forgotten drain: nothing handed out may still be a member; what remains is a
+                // subset of the elements that were not handed out (see maphist::op_drain)
+                let post = Self::observe(&slot.c).unwrap_or_default();
+                let owners = P10.and(Prop::C07).and(Prop::C02);
+                for o in &post {
+                    let handed_out = ys.iter().any(|y| y.0 == o.raw);
+                    cx.chk(owners, !handed_out, "forgotten-drain", || format!("element {} was yielded by the drain and is still in the set after the drain was forgotten", o.raw));
+                    match before.get(&o.raw) {
+                        Some(kid) if !handed_out => {
+                            cx.chk(owners, !KD::IDENT || *kid == o.kid, "forgotten-drain", || format!("element {} is stored as a different object after a forgotten drain", o.raw));
+                            slot.model.insert(o.raw, *kid);
+                        }
+                        Some(_) => {}
+                        None => {
+                            cx.chk(owners, false, "forgotten-drain", || format!("element {} is in the set after a forgotten drain but the set did not hold it", o.raw));
+                        }
+                    }
+                }
+            }
             slot.drained = true;
             self.groups |= 8;
         }
